@@ -171,6 +171,9 @@ where
 
 impl Prop for SetSerde {
     type Case = SetCase;
+    fn input_bytes<'a>(&self, c: &'a mut Self::Case) -> Option<&'a mut Vec<u8>> {
+        Some(&mut c.input.0)
+    }
     fn strategy(&self, _tier: Tier) -> BoxedStrategy<SetCase> {
         let per = |f: Format| {
             let small = (gen::input_and_cap(f, gen::any_input(f, true)), vec(prop_oneof![2 => Just(0u8), 3 => 1u8..6], 0..5))
